@@ -1136,9 +1136,13 @@ impl<'a, 'b> Iterator for FindTextIter<'a, 'b> {
                         let newend = resource
                             .utf8byte_to_charpos(beginbytepos + endbytepos)
                             .expect("utf-8 byte must resolve to valid charpos");
-                        //set offset for next run
+                        //set offset for next run (an empty fragment matches at every position, like str::match_indices: move on by one)
                         self.offset = Offset {
-                            begin: Cursor::BeginAligned(newend),
+                            begin: Cursor::BeginAligned(if self.fragment.is_empty() {
+                                newend + 1
+                            } else {
+                                newend
+                            }),
                             end: self.offset.end,
                         };
                         match resource.textselection(&Offset::simple(newbegin, newend)) {
@@ -1196,9 +1200,13 @@ impl<'a> Iterator for FindNoCaseTextIter<'a> {
                         let newend = resource
                             .utf8byte_to_charpos(beginbytepos + endbytepos)
                             .expect("utf-8 byte must resolve to valid charpos");
-                        //set offset for next run
+                        //set offset for next run (an empty fragment matches at every position, like str::match_indices: move on by one)
                         self.offset = Offset {
-                            begin: Cursor::BeginAligned(newend),
+                            begin: Cursor::BeginAligned(if self.fragment.is_empty() {
+                                newend + 1
+                            } else {
+                                newend
+                            }),
                             end: self.offset.end,
                         };
                         match resource.textselection(&Offset::simple(newbegin, newend)) {
